@@ -13,6 +13,9 @@ impl<T> HalfLock<T> {
             self.write_mutex.id,
         )
     }
+    pub(crate) fn verif_mutex_locked(&self) -> bool {
+        self.write_mutex.verif_locked()
+    }
     pub(crate) fn verif_mutex_id(&self) -> usize {
         self.write_mutex.id
     }
@@ -26,5 +29,13 @@ impl<T> HalfLock<T> {
     /// Harness: the writer mutex was poisoned by an earlier panic.
     pub(crate) fn verif_poison(&self) {
         self.write_mutex.verif_poison();
+    }
+}
+
+impl<T> HalfLock<T> {
+    /// Harness: number of read sections currently open (both generation slots),
+    /// read without creating scheduling points.
+    pub(crate) fn verif_readers(&self) -> usize {
+        libc::vshim::quiet(|| self.lock[0].load(super::Ordering::SeqCst) + self.lock[1].load(super::Ordering::SeqCst))
     }
 }
